@@ -276,6 +276,50 @@ def key_z3(K, term):
     return K.raw(z3.StringVal(str(term[1])), z3.StringVal(str(term[2])))
 
 
+def batch_indices_check(chk):
+    """_generate_batch_indices(key, n, batch_size): the batches are, in order, the first floor(n / batch_size) * batch_size entries of ONE
+    permutation of 0..n-1 drawn with the given key (structural: the output cells are the permutation stub's own cells)"""
+    import liesel.goose.optim as optim
+    from ..harness import Result
+    key = jax.random.PRNGKey(0)
+    for n, bs in ((5, 2), (5, 3), (5, 4), (4, 2), (6, 3), (5, 5), (7, 4)):
+        class _Ob:
+            name = f"_generate_batch_indices(key, n={n}, batch_size={bs}): batches = consecutive slices of one permutation of all n observations drawn with the given key"
+            signature = f"batch-indices:{n}:{bs}"
+
+        def run(n=n, bs=bs):
+            jp = jax.make_jaxpr(lambda k: optim._generate_batch_indices(k, n, bs))(key)
+            I = Interp("real", poison_ok=True)
+            out = I.eval_closed(jp, root_key("bk"))[0]
+            sh = [d for d in I.draws if d["kind"] == "shuffle"]
+            return out, sh
+        res = chk.guarded(_Ob.signature, _Ob.name, run)
+        if res is None:
+            continue
+        out, sh = res
+        nb = n // bs
+        ok = (len(sh) == 1 and tuple(np.shape(out)) == (nb, bs) and tuple(sh[0]["shape"]) == (n,) and "bk" in repr(sh[0]["keys"][0])
+              and all(out[b, j] is sh[0]["out"][b * bs + j] for b in range(nb) for j in range(bs)))
+        if ok:
+            chk.results.append(Result(_Ob, "unsat", 0.0, {"tactic": "structural identity of the permutation cells"}))
+            continue
+        # replay on the real function: over several keys every observation must be able to appear and the membership must vary
+        seen = [np.asarray(optim._generate_batch_indices(jax.random.PRNGKey(s_), n, bs)) for s_ in range(40)]
+        shapes_ok = all(a.shape == (nb, bs) for a in seen)
+        members = {int(v) for a in seen for v in a.reshape(-1)}
+        distinct = all(len(set(a.reshape(-1).tolist())) == a.size for a in seen)
+        varies = len({tuple(a.reshape(-1).tolist()) for a in seen}) > 1 or n == 1
+        bad = not (shapes_ok and distinct and members == set(range(n)) and varies)
+        rp = dict(reproduced=bool(bad), inputs=dict(n=n, batch_size=bs, keys="PRNGKey(0..39)"),
+                  observed=dict(observations_ever_in_a_batch=sorted(members), distinct_batchings=len({tuple(a.reshape(-1).tolist()) for a in seen})),
+                  note="over 40 keys: some observation never enters a batch, or the batches do not depend on the key" if bad else "real function behaves like a key-dependent permutation at 40 keys")
+        chk.results.append(Result(_Ob, "sat", 0.0, {"tactic": "structural identity of the permutation cells"}, replay=rp))
+        if bad:
+            chk.violation(_Ob.signature, _Ob.name, rp)
+        else:
+            chk.harness_error(_Ob.signature, "encoding of _generate_batch_indices is not a slice of one permutation, but the real function behaves like one at 40 keys")
+
+
 def loop_body_check(chk, batch_size=2):
     loc, cap = capture(None, 6, 2, batch_size=batch_size)
     init = cap.init
@@ -372,6 +416,7 @@ def main():
             chk.validated_points += enc.validate(chk.rng, npoints=1)
     chk.functions += ["liesel.goose.optim.optim_flat (pre-loop part executed, statements after the while_loop sliced from the source and traced)"]
     loop_body_check(chk)
+    batch_indices_check(chk)
     chk.run(obs)
     chk.bounds += [f"Stopper: loss history of N = {N} float32 values (non-NaN), every iteration index 0..N-1, patience in {pats}, atol/rtol arbitrary float32 (non-NaN)",
                    f"post-loop: max_iter = {MAXIT}, patience = {PAT}, final iteration in {wis}; loss histories, position history (2 coefficients) and current position symbolic reals",
